@@ -35,6 +35,8 @@ Definition comp_cmp (a b : comp) : comparison :=
 Definition u_has_root (l : list byte) : bool :=
   match u_nextf (u_init l) with Some (Root, _) => true | _ => false end.
 Definition u_is_absolute := u_has_root.
+(* the same queries asked of a partially consumed iterator (they clone the parser in its current state) *)
+Definition us_has_root (s : ustate) : bool := match u_nextf s with Some (Root, _) => true | _ => false end.
 
 (* UnixEncoding::push *)
 Definition u_push (cur p : list byte) : list byte :=
